@@ -11,15 +11,15 @@ import (
 
 func zzC12FS() *zzFS {
 	return newZZFS(map[string]string{
-		"page.vuego":        `<h1>{{ title }}</h1><template include="c.vuego" :n="n"></template><ul><li v-for="i in items">{{ i }}</li></ul>`,
-		"c.vuego":           `<p>{{ n }}</p>`,
-		"bad_early.vuego":   `<p>{{ title | nofn }}</p><h1>late</h1>`,
-		"bad_late.vuego":    `<h1>ok</h1><ul><li v-for="i in items">{{ i | nofn }}</li></ul>`,
-		"bad_inc.vuego":     `<h1>ok</h1><template include="missing.vuego"></template>`,
-		"bad_req.vuego":     `<h1>ok</h1><template include="req.vuego"></template>`,
-		"req.vuego":         `<template :required="must"><i>{{ must }}</i></template>`,
-		"lp.vuego":          "---\nlayout: wrap\n---\n<p>{{ title }}</p>",
-		"lbad.vuego":        "---\nlayout: badl\n---\n<p>{{ title }}</p>",
+		"page.vuego":         `<h1>{{ title }}</h1><template include="c.vuego" :n="n"></template><ul><li v-for="i in items">{{ i }}</li></ul>`,
+		"c.vuego":            `<p>{{ n }}</p>`,
+		"bad_early.vuego":    `<p>{{ title | nofn }}</p><h1>late</h1>`,
+		"bad_late.vuego":     `<h1>ok</h1><ul><li v-for="i in items">{{ i | nofn }}</li></ul>`,
+		"bad_inc.vuego":      `<h1>ok</h1><template include="missing.vuego"></template>`,
+		"bad_req.vuego":      `<h1>ok</h1><template include="req.vuego"></template>`,
+		"req.vuego":          `<template :required="must"><i>{{ must }}</i></template>`,
+		"lp.vuego":           "---\nlayout: wrap\n---\n<p>{{ title }}</p>",
+		"lbad.vuego":         "---\nlayout: badl\n---\n<p>{{ title }}</p>",
 		"layouts/wrap.vuego": `<main><div v-html="content"></div><i>{{ title }}</i></main>`,
 		"layouts/badl.vuego": `<main><div v-html="content"></div>{{ title | nofn }}</main>`,
 	})
